@@ -8,6 +8,7 @@ from sv.driver import CLAIMED
 from sv.selftest import _run_variant
 
 only = sys.argv[1:]
+PROPS = [p for p in os.environ.get('MATRIX_PROPS', '').split(',') if p] or CLAIMED
 metas = sorted(glob.glob('/verif/seeded/*/meta.json') + glob.glob('/verif/selftest/breaking/*.json'))
 jobs = []
 for mp in metas:
@@ -16,7 +17,7 @@ for mp in metas:
     if only and not any(o in sid for o in only):
         continue
     patch = os.path.join(os.path.dirname(mp), 'patch.diff') if mp.endswith('meta.json') else mp[:-5] + '.diff'
-    for p in CLAIMED:
+    for p in PROPS:
         jobs.append((mp, sid, patch, p))
 def run(j):
     mp, sid, patch, p = j
@@ -29,8 +30,10 @@ for mp, sid, p, r in results:
     by.setdefault(mp, {})[p] = {'exit': r.get('exit'), 'reported': r.get('reported', [])[:3]}
 for mp, det in by.items():
     meta = json.load(open(mp))
-    meta['detected_by'] = {p: v['reported'] for p, v in det.items() if v['exit'] == 1}
-    meta['analysis_error_in'] = [p for p, v in det.items() if v['exit'] == 2]
+    prev_d = {p: v for p, v in meta.get('detected_by', {}).items() if p not in det}
+    prev_e = [p for p in meta.get('analysis_error_in', []) if p not in det]
+    meta['detected_by'] = dict(sorted({**prev_d, **{p: v['reported'] for p, v in det.items() if v['exit'] == 1}}.items()))
+    meta['analysis_error_in'] = sorted(prev_e + [p for p, v in det.items() if v['exit'] == 2])
     own = meta.get('property')
     meta['expected_detection'] = sorted(set(meta.get('expected_detection', [])) | ({own} if own in meta['detected_by'] else set()))
     json.dump(meta, open(mp, 'w'), indent=1)
